@@ -138,6 +138,7 @@ class Verifier:
                                functions=[c.target])]
         consts = module_constants(tree)
         consts.update(c.consts)
+        self.reg.current_tree = tree
         fhash = src_hash(ast.dump(fdef))
         obs = {}
 
@@ -424,6 +425,23 @@ class Verifier:
                 return any(assigns(x, name) for x in stmt.body)
             return any(isinstance(x, ast.Name) and x.id == name for t in tg for x in ast.walk(t))
         found = None
+        rename = {}
+        if c.block_like and not any(isinstance(x, ast.stmt) and assigns(x, first)
+                                    for x in ast.walk(fdef)):
+            # the anchoring local was renamed: find the assignment whose right-hand side has the
+            # recorded shape (names may be renamed consistently) and follow the new name
+            pat = ast.parse(c.block_like, mode='eval').body
+            for n in ast.walk(fdef):
+                if isinstance(n, ast.Assign) and len(n.targets) == 1 and \
+                        isinstance(n.targets[0], ast.Name):
+                    m = _unify(pat, n.value, {})
+                    if m is not None and len(set(m.values())) == len(m):
+                        rename = dict(m)
+                        rename[first] = n.targets[0].id
+                        if last == first:
+                            last = n.targets[0].id
+                        first = n.targets[0].id
+                        break
         for n in ast.walk(fdef):
             for fld in ('body', 'orelse', 'finalbody'):
                 lst = getattr(n, fld, None)
@@ -455,6 +473,10 @@ class Verifier:
             leaves(name, v, inputs)
         for r in c.requires:
             st.assume(ex.eval_cl(r, st))
+        # renamed locals: the code reads the new names
+        for k, actual in rename.items():
+            if k in st.env and actual != k:
+                st.env[actual] = st.env.pop(k)
         res = self._satisfiable(st.hyps(), inputs)
         if res != 'sat':
             return (False, 0)
@@ -487,6 +509,13 @@ class Verifier:
                 est.env.update(olds)
                 for k in inputs_alias:
                     est.env[k[len('__input_'):] + '_input'] = pst.env[k]
+                # the contract text speaks with the recorded names
+                for k, actual in rename.items():
+                    if actual == k:
+                        continue
+                    for pre, suf in (('', ''), ('old_', ''), ('', '_input')):
+                        if pre + actual + suf in est.env:
+                            est.env[pre + k + suf] = est.env[pre + actual + suf]
                 est.facts, est.pc = list(pst.facts), list(pst.pc)
                 gex = Executor(self.reg, consts)
                 gex.goal_mode = True
@@ -500,11 +529,19 @@ class Verifier:
         """Statement contract: the value assigned to `c.stmt` inside the real function, with its
         free variables typed by c.params, satisfies the ensures (over `value`)."""
         node = None
-        for n in ast.walk(fdef):
-            if isinstance(n, ast.Assign) and len(n.targets) == 1 and \
-                    isinstance(n.targets[0], ast.Name) and n.targets[0].id == c.stmt:
-                node = n
-                break
+        cands = [n for n in ast.walk(fdef)
+                 if isinstance(n, ast.Assign) and len(n.targets) == 1
+                 and isinstance(n.targets[0], ast.Name) and n.targets[0].id == c.stmt]
+        if cands:
+            node = cands[0]
+            if c.stmt_like and len(cands) > 1:
+                # several assignments to the name (e.g. a default before the real one): take the
+                # one whose right-hand side has the recorded shape
+                pat0 = ast.parse(c.stmt_like, mode='eval').body
+                for n in cands:
+                    if _unify(pat0, n.value, {}) is not None:
+                        node = n
+                        break
         rename = {}
         if node is None and c.stmt_like:
             # the local may have been renamed: find the assignment whose right-hand side has the
